@@ -16,6 +16,7 @@ void check_C04(Src &s, Ctx &ctx) {
     // several rounds of selective surplus refinement: hierarchies with gaps, where the surpluses and the weights are computed by different algorithms
     const bool gaps_class = s.n >= 4 && (s.p[s.n - 1] % 16) == 9;
     st.spec = decode_spec(s, so); st.vm.decode(s);
+    if (s.n >= 3 && (s.p[s.n - 1] % 8) == 5) { st.vm.degenerate = 1 + (s.p[s.n - 2] % 3); ctx.label("model:degenerate"); }   // one case in eight: constant / affine / one-active-direction model (coefficients vanish exactly)
     if (gaps_class) { GridSpec &sp = st.spec; GridSpec g0; sp = g0; sp.family = F_LOCALP; sp.dims = 2 + s.pick(2); sp.outs = 1 + s.pick(2); static const TypeOneDRule lr[] = {rule_localp, rule_localp, rule_localp0, rule_semilocalp, rule_localpb}; sp.rule = lr[s.pick(5)];
         sp.order = 1 + s.pick(3); sp.depth = 1 + s.pick(2); static const double strong[] = {2.0, 1.3, 0.9}, weak[] = {0.15, 0.3, 0.0}; int major = s.pick(sp.dims); for (int j = 0; j < 4; j++) st.vm.w[j] = (j == major) ? strong[s.pick(3)] : weak[s.pick(3)]; }
     make_grid(st.g, st.spec, so.cap);
